@@ -206,7 +206,23 @@ pub fn run_c03(out: &mut Out, rng: &mut Rng, thorough: bool) {
     let nh = 12u64 << (2 * depth as u32);
     for _ in 0..(if thorough { 200 } else { 20 }) { let hh = rng.below(nh); cell_case(out, rng, depth, hh, "random"); }
   }
-  for &depth in &[0u8, 3, 12, 29] { let nh = 12u64 << (2 * depth as u32); for &h in &[nh, nh + 7, u64::MAX >> 2] { cell_case(out, rng, depth, h, "out-of-range"); } }
+  // out of range: just above n_hash, structured (base-cell field b >= 12 in every byte position: b, b + 16k, b + 256k,
+  // so that a range test done on a truncated base-cell number is seen), uniformly random, extreme
+  for depth in 0u8..=29 {
+    let nh = 12u64 << (2 * depth as u32);
+    let td = 2 * depth as u32;
+    let mut bad: Vec<u64> = vec![nh, nh + 7, nh + rng.below(nh.max(1)), u64::MAX >> 2, u64::MAX];
+    for _ in 0..(if thorough { 40 } else { 8 }) {
+      let low = if td == 0 { 0 } else { rng.next() & ((1u64 << td) - 1) };
+      let room = 64 - td; // bits available for the base-cell field
+      let b = match rng.below(4) { 0 => 12 + rng.below(4), 1 => 16 * (1 + rng.below(15)) + rng.below(12), 2 => 256 * (1 + rng.below(255)) + rng.below(12), _ => (1u64 << (8 + rng.below(24) as u32)) + rng.below(12) };
+      let b = if room >= 64 { b } else { b & ((1u64 << room) - 1) };
+      let h = (b << td) | low;
+      if h >= nh { bad.push(h); }
+      let r = rng.next(); if r >= nh { bad.push(r); }
+    }
+    for h in bad { cell_case(out, rng, depth, h, "out-of-range"); }
+  }
   for k in 0..(if thorough { 300_000 } else { 15_000 }) {
     let p = if k % 25 == 24 { gen_bad_pos(rng) } else { gen_pos(rng) };
     pos_case(out, &p, rng.below(30) as u8);
